@@ -157,6 +157,10 @@ static void clearHandler(void)
     if (g_artefact) signal(SIGINT, SIG_DFL);
     g_artefact = NULL;
 }
+void FIO_removeArtefact(void)
+{
+    if (g_artefact) remove(g_artefact);
+}
 
 
 /*-*********************************************************
